@@ -102,6 +102,7 @@ type c08run struct {
 	post     string
 	ctrl     *sched.Controller
 	race     bool // do not settle between the stop cause and the post-stop record
+	racePre  bool // do not settle between the last pre-stop record and the stop cause either
 }
 
 type c08profile struct{ recvs, sends int }
@@ -138,7 +139,7 @@ func c08exec(c *vt.Ctx, r c08run) (prof c08profile) {
 		rig := peer.NewServerRig(c, r.ctrl, opts)
 		log := rig.Log
 		callbacks := 0
-		for _, st := range r.sc.steps {
+		for si, st := range r.sc.steps {
 			if st == "@endbase" {
 				log.Add("basectx.end", "", "")
 				endBase()
@@ -152,7 +153,16 @@ func c08exec(c *vt.Ctx, r c08run) (prof c08profile) {
 			} else {
 				rig.Send(st)
 			}
+			if r.racePre && si == len(r.sc.steps)-1 {
+				// the stop cause races with the processing of this record; under a
+				// delay set the server goroutines run up to their parked sites first
+				if r.ctrl.HasDelays() {
+					r.ctrl.Quiesce()
+				}
+				break
+			}
 			rig.Settle()
+			log.Add("settled.pre", "", "")
 		}
 		// the explicit stop cause
 		switch r.cause.kind {
@@ -174,6 +184,8 @@ func c08exec(c *vt.Ctx, r c08run) (prof c08profile) {
 		if !r.race {
 			rig.Settle()
 			log.Add("settled", "", "")
+		} else if r.ctrl.HasDelays() {
+			r.ctrl.Quiesce()
 		}
 		if p := c08post[r.post]; p != "" {
 			rig.Send(p)
@@ -361,8 +373,19 @@ func c08judge(c *vt.Ctx, r c08run, rig *peer.ServerRig, st jrpc2.ServerStatus, c
 			tBaseEnd = e.T
 		}
 	}
+	tNoteLimit := tCause
+	if r.racePre {
+		// the last record raced with the stop: only what was received before the
+		// last quiescent point is known to have been received before the stop
+		tNoteLimit = 0
+		for _, e := range evs {
+			if e.Kind == "settled.pre" && e.T < tCause {
+				tNoteLimit = e.T
+			}
+		}
+	}
 	for _, e := range evs {
-		if e.Kind != "wire.srv" || e.Tag != "recv.exit" || e.Info == "" || e.T > tCause || e.T > tBaseEnd {
+		if e.Kind != "wire.srv" || e.Tag != "recv.exit" || e.Info == "" || e.T > tNoteLimit || e.T > tBaseEnd {
 			continue
 		}
 		ms, _, err := peer.Decode([]byte(e.Info))
@@ -499,7 +522,7 @@ func c08cases(e vt.Env, yield func(vt.Case) bool) {
 				}
 				id := fmt.Sprintf("E2/%s/stop/pipe=%v/%s/d%d", sc.name, pipeLike, post, dd)
 				if !yield(vt.Case{ID: id, Run: func(c *vt.Ctx) {
-					base := c08run{sc: sc, cause: c08cause{kind: "stop"}, pipeLike: pipeLike, post: post, race: true}
+					base := c08run{sc: sc, cause: c08cause{kind: "stop"}, pipeLike: pipeLike, post: post, race: true, racePre: post == "note" || post == "invalidnote"}
 					prof := sched.New()
 					base.ctrl = prof
 					c08exec(c, base)
@@ -528,7 +551,7 @@ func c08cases(e vt.Env, yield func(vt.Case) bool) {
 		if cause.kind != "stop" && cause.kind != "peerclose" {
 			cause.k = 1 + rng.IntN(len(sc.steps)+2)
 		}
-		run := c08run{sc: sc, cause: cause, pipeLike: rng.IntN(2) == 0, post: c08postNames[rng.IntN(len(c08postNames))], race: rng.IntN(2) == 0}
+		run := c08run{sc: sc, cause: cause, pipeLike: rng.IntN(2) == 0, post: c08postNames[rng.IntN(len(c08postNames))], race: rng.IntN(2) == 0, racePre: rng.IntN(3) == 0}
 		if cause.kind == "peerclose" {
 			run.post = "none"
 		}
